@@ -163,13 +163,16 @@ func Run(cfg *Config, cmds []*Cmd, onEvent func(cid int, line []byte)) (*Stats, 
 								reason = "crash"
 								break loop
 							}
-							if !timer.Stop() {
-								select {
-								case <-timer.C:
-								default:
+							// the watchdog measures one micro-operation: only its begin marker re-arms it
+							if strings.HasPrefix(line, "#B ") || strings.HasPrefix(line, "#E ") {
+								if !timer.Stop() {
+									select {
+									case <-timer.C:
+									default:
+									}
 								}
+								timer.Reset(cfg.OpTimeout)
 							}
-							timer.Reset(cfg.OpTimeout)
 							if strings.HasPrefix(line, "#B ") {
 								f := strings.SplitN(line, " ", 4)
 								if len(f) >= 3 {
